@@ -21,7 +21,7 @@ from common import Rng
 from jaxtyping._import_hook import JaxtypingTransformer, Typechecker
 
 LEVEL = "proof"
-THEOREMS = ["C10_erase", "C10_count", "C10_import_count", "C10_import_position", "C10_positions", "C10_generated_good"]
+THEOREMS = ["C10_erase", "C10_count", "C10_import_count", "C10_import_position", "C10_positions", "C10_generated_good", "C10_source_visitors"]
 RULE = (
     "programs = every .py file of the standard library and of site-packages whose original source "
     "compiles (quick: a seeded sample of 300; thorough: all) plus generated modules (decorator stacks, "
